@@ -233,15 +233,23 @@ func (w *World) rawKey(key string) string {
 func (w *World) Grant(key string) bool {
 	raw := w.rawKey(key)
 	var dk string
+	esName := ""
+	if strings.HasPrefix(raw, "es:") {
+		// (a second worker waiting under the same entry name has the key name~2: sched.Gate)
+		esName = raw[3:]
+		if i := strings.LastIndexByte(esName, '~'); i > 0 {
+			esName = esName[:i]
+		}
+	}
 	switch {
 	case strings.HasPrefix(raw, "es:"):
-		dk = "esdone:" + raw[3:]
+		dk = "esdone:" + esName
 	default:
 		dk = raw
 	}
 	before := w.S.counter("done", dk)
 	if strings.HasPrefix(raw, "es:") {
-		name := raw[3:]
+		name := esName
 		if ps := w.qpos[name]; len(ps) > 0 {
 			st := w.Serv.VerifCache().VerifQueueState()[name]
 			next := w.S.counter("done", "esqdone:"+name) + 1
@@ -419,6 +427,17 @@ func (w *World) Event(ns, event string, payload []byte) bool {
 
 // Evict fires the eviction timer of a cache entry.
 func (w *World) Evict(name string) bool {
+	// A cache worker runs the tasks of one entry under the entry's mutex, which the eviction needs too: in the gateway an
+	// entry is never evicted between two of its queued tasks. The scheduler hook releases that mutex while a worker is
+	// parked, so the harness must not fire the timer while the entry has tasks queued or a worker parked for it.
+	if qs, ok := w.Serv.VerifCache().VerifQueueState()[name]; ok && (qs[0] > 0 || qs[1] > 0) {
+		return false
+	}
+	for _, k := range w.Ready() {
+		if k == "es:"+name {
+			return false
+		}
+	}
 	ok := w.Serv.VerifCache().VerifEvict(name)
 	if ok {
 		w.rec(Ev{Kind: "evict", Subj: name})
